@@ -38,6 +38,8 @@ OUT_DIR = VERIF_DIR if os.path.realpath(REPO_DIR) == "/repo" else os.environ.get
     "VERIF_OUT", "/dev/shm/verif-scratch-out")
 
 
+CENSUS = os.environ.get("VERIF_CENSUS") == "1"   # development aid: do not stop at findings
+
 # --------------------------------------------------------------------------
 # seeds
 
@@ -179,7 +181,7 @@ def generate_run(sim, rng, cfg, known) -> RunResult:
         fs = world.apply(op)
         for f in fs:
             res.findings.append((i, f))
-            if match_known(f, known) is None:
+            if match_known(f, known) is None and not CENSUS:
                 stop = True
         if stop:
             break
